@@ -1,2 +1,79 @@
-From Coq Require Import ZArith List Bool.
-From Verif Require Import Lib.Corr Model.C37.
+(* C37 — Downsampled counters preserve the raw counter's increase.
+   Property theorems only; each is closed by [exact] of a lemma from Proofs/C37.v.
+   Model: DownsampleRaw / downsampleFloatBatch / downsampleBatch / floatAggregator.counter
+   (Lib/Downsample_Core.v), ApplyCounterResetsSeriesIterator as written (Next with its
+   internal Seek(lastT+1) on chunk exhaustion, the "same timestamp = true last value"
+   rule, the back-in-time skip; Lib/Downsample_Aggr.v), downsampleAggr for the second
+   level, with [currentWindow] regenerated from the Go source (Gen/C37.v).
+   [adj vs] = the raw counter adjusted for resets: first value, + (v - last) for every
+   increase, + v for every decrease.  [adj_at d t] = adj of the raw non-NaN samples at or
+   before t.  valid_counter: resolution > 0, int64 timestamps >= 0 strictly increasing,
+   values >= 0; no bound on length, on the number of chunks or on reset positions. *)
+From Coq Require Import ZArith List Bool Sorted.
+Import ListNotations.
+From Verif Require Import Lib.Corr Lib.Downsample_Core Lib.Downsample_Aggr Lib.Downsample_Counter
+  Gen.C37 Model.C37 Proofs.C37.
+Open Scope Z_scope.
+
+(* Level 1 (5m).  For every raw counter series, every resolution and EVERY value of
+   targetChunkCount: DownsampleRaw terminates, reading the counter aggregate of its
+   chunks with ApplyCounterResetsSeriesIterator terminates, and every value read is the
+   raw counter adjusted for all counter resets up to the last raw sample at or before
+   the emitted timestamp — whether the resets fall inside a chunk or between chunks. *)
+Theorem C37_level1 : forall res num_chunks data,
+  valid_counter res data ->
+  exists l1 emitted,
+    level1 res num_chunks data = Some l1 /\ read_counter l1 = Some emitted /\
+    Forall (fun s => snd s = adj_at (keep_nonnan data) (fst s)) emitted.
+Proof. exact level1_exact. Qed.
+Print Assumptions C37_level1.
+
+(* The same through the boolean clause [values_ok] of the predicate that the check
+   evaluates on the implementation's own read-out (pred_ok additionally checks strictly
+   increasing timestamps, that the last value is the total adjusted counter, the
+   second level (1h) and Next/Seek programs: those clauses are tied by execution only —
+   this is the "partial" in the property's level). *)
+Theorem C37_level1_values_partial : forall res1 res2 num_chunks data,
+  valid_input res1 res2 data = true ->
+  exists l1 emitted,
+    level1 res1 num_chunks data = Some l1 /\ read_counter l1 = Some emitted /\
+    values_ok (keep_nonnan data) emitted = true.
+Proof. exact level1_values. Qed.
+Print Assumptions C37_level1_values_partial.
+
+(* The iterator on ANY sequence of counter chunks of the documented format (first raw
+   value, non-decreasing per-window values at strictly increasing timestamps, last
+   timestamp repeated with the last raw value), time-ordered: what Next yields until
+   ValNone is exactly [expect]: the first chunk's values as they are, every later chunk
+   shifted by the adjusted total so far plus the reset-aware step from the previous
+   chunk's LAST RAW value to this chunk's FIRST RAW value.  (This is the statement that
+   also covers the chunks written by the second level.) *)
+Theorem C37_iterator_stitches_chunks : forall qs,
+  q_chain None qs -> READ (toks_of (map q_samples qs)) acr0 = Some (expect None qs).
+Proof. exact read_chunks. Qed.
+Print Assumptions C37_iterator_stitches_chunks.
+
+(* The counter sub-chunk DownsampleRaw writes for a batch has that format, and its
+   per-window values are the adjusted counter of the batch's samples through each window. *)
+Theorem C37_counter_chunk_format : forall res b, 0 < res -> counter_batch b ->
+  q_ok (q_of res b) /\ q_end (q_of res b) = last_t b /\
+  k_counter (float_batch cw res b) = Some (q_samples (q_of res b)) /\
+  map snd (q_mids (q_of res b)) = map adj (prefixes [] (Lib.Downsample_Batch.batch_windows cw res b)).
+Proof. intros res b H. exact (q_of_ok res H b). Qed.
+Print Assumptions C37_counter_chunk_format.
+
+(* Non-vacuity: a counter with a reset inside the first chunk and one exactly between
+   the two chunks (batch size 3), 10 ms resolution. *)
+Example C37_nonvacuous :
+  let data := [(0, Some 5); (4, Some 9); (12, Some 2); (15, None); (21, Some 6); (30, Some 1); (47, Some 3)] in
+  valid_counter 10 data /\
+  exists l1, level1 10 3 data = Some l1 /\ length l1 = 2%nat /\
+    read_counter l1 = Some [(0, 5); (9, 9); (12, 11); (21, 15); (29, 15); (39, 16); (47, 18)] /\
+    adj (map snd (keep_nonnan data)) = 18.
+Proof.
+  cbv zeta. split.
+  - split; [reflexivity|]. split.
+    + cbn [map fst]. repeat (constructor; [|repeat constructor; reflexivity]). constructor.
+    + repeat constructor; cbn; try discriminate; exact I.
+  - eexists. split; [vm_compute; reflexivity|]. repeat split; vm_compute; reflexivity.
+Qed.
